@@ -4,7 +4,7 @@
 #   with patch: crate compiles, lib+bins+integration tests pass, demo FAILS; without patch: demo PASSES.
 WT=/tmp/wt_confirm
 export CARGO_NET_OFFLINE=true CARGO_TARGET_DIR=$WT/target
-[ -d $WT ] || git -C /repo worktree add -q --detach $WT 9a57388
+[ -d $WT ] || git -C /repo worktree add -q --detach $WT HEAD; git -C $WT checkout -q --detach $(git -C /repo rev-parse HEAD)
 for name in "$@"; do
   d=/verif/seeded/$name
   cd $WT && git checkout -q -- . && rm -f tests/seed_demo.rs
